@@ -174,6 +174,30 @@ def _run(kinds, gaps, T, c, pre_cancelled, raise_at, real=False, raw=False):
     return _judge(out, kinds, ts, T, c, pre_cancelled, raise_at, rec)
 
 
+def pick_rid(i):
+    if i == 0:
+        return "rid-14"
+    if i == 1:
+        return 5
+    if i == 2:
+        return 2 ** 53 + 12345
+    if i == 3:
+        return -(2 ** 63)
+    return "9007199254740993"
+
+
+def traffic_id(kinds, gaps, T, c, idsel):
+    """same oracle with other request ids (integers beyond 2^53, digit strings): the id on the wire, in the
+    cancelled notification and in the matching must be the caller's own"""
+    global RID
+    saved = RID
+    RID = pick_rid(idsel)
+    try:
+        return _run(kinds, gaps, T, c, False, -1)
+    finally:
+        RID = saved
+
+
 def traffic(kinds, gaps, T, c, raise_at):
     return _run(kinds, gaps, T, c, False, raise_at)
 
